@@ -200,6 +200,32 @@ def compute_row(root):
     def run(rng):
         clear_caches()
         tree = oracle.build(s, data)
+        if cfg.get("regrafted_start"):
+            # the same tree assembled by grafts from the top down (as repeated subtree / prune-regraft moves can leave it): the
+            # graph library numbers clones in the order they are attached, so here parents sit at lower positions than their
+            # children - the reverse of a bottom-up build
+            from phyclone.tree import Tree
+
+            ch = oracle.children_map(s)
+            dmap = {d.idx: d for d in data}
+            top = Tree(data[0].grid_size)
+
+            def attach(block, parent_name):
+                one = Tree(data[0].grid_size)
+                one.create_root_node(children=[], data=[dmap[i] for i in sorted(block)])
+                top.add_subtree(one, parent=parent_name)
+                name = [nm for nm in top.nodes if {d.idx for d in top._data[nm]} == set(block)][0]
+                for c in sorted(ch.get(block, []), key=sorted):
+                    attach(c, name)
+
+            for r in sorted(ch.get(None, []), key=sorted):
+                attach(r, None)
+            for i in sorted(s[1]):
+                top.add_data_point_to_outliers(dmap[i])
+            top.update()
+            if oracle.abstract(top) != s:
+                raise RuntimeError("harness: top-down build does not reproduce the state")
+            tree = top
         try:
             new = apply_move(cfg, rng, tree, tree_dist)
         except Exception as e:  # an execution that raises has no successor state
